@@ -1,7 +1,7 @@
 import sys,glob,json
 sys.path.insert(0,'/verif/rules')
 from facts import Facts
-f=Facts(sorted(glob.glob('/verif/.cache/facts/default-*'))[-1])
+import os; f=Facts(max(glob.glob('/verif/.cache/facts/default-*'),key=os.path.getmtime))
 def short(x):
     return json.dumps(x)
 def dump(r):
